@@ -27,9 +27,12 @@ type verifReq struct {
 	qpVal      string // query parameter "q"
 }
 
+// alphabet of the request path; the ignoreUriCase harness adds an upper-case letter
+var verifPathAlphabet = "ab/"
+
 func verifRequest() *verifReq {
 	return &verifReq{
-		path: "/" + vp.StringIn("req.path", 3, "ab/"), method: vp.StringIn("req.method", 3, "GET"), authority: vp.StringIn("req.authority", 2, "ab"),
+		path: "/" + vp.StringIn("req.path", 3, verifPathAlphabet), method: vp.StringIn("req.method", 3, "GET"), authority: vp.StringIn("req.authority", 2, "ab"),
 		hdrPresent: vp.Bool("req.hdrPresent"), hdrVal: vp.StringIn("req.hdrVal", 2, "xy"),
 		qpPresent: vp.Bool("req.qpPresent"), qpVal: vp.StringIn("req.qpVal", 2, "xy"),
 	}
@@ -102,20 +105,22 @@ func verifEnvoyHeader(h *route.HeaderMatcher, r *verifReq) bool {
 
 func verifEnvoyMatch(m *route.RouteMatch, r *verifReq) bool {
 	ok := true
+	// case_sensitive (default true) governs prefix, path and path_separated_prefix; safe_regex ignores it
+	fold := func(s string) string { return s }
+	if m.CaseSensitive != nil && !m.CaseSensitive.Value {
+		fold = strings.ToLower
+	}
 	switch p := m.PathSpecifier.(type) {
 	case *route.RouteMatch_Prefix:
-		ok = strings.HasPrefix(r.path, p.Prefix)
+		ok = strings.HasPrefix(fold(r.path), fold(p.Prefix))
 	case *route.RouteMatch_Path:
-		ok = r.path == p.Path
+		ok = fold(r.path) == fold(p.Path)
 	case *route.RouteMatch_SafeRegex:
 		ok = verifRegex(p.SafeRegex.Regex, r.path)
 	case *route.RouteMatch_PathSeparatedPrefix:
-		ok = vp.Or(r.path == p.PathSeparatedPrefix, strings.HasPrefix(r.path, p.PathSeparatedPrefix+"/"))
+		ok = vp.Or(fold(r.path) == fold(p.PathSeparatedPrefix), strings.HasPrefix(fold(r.path), fold(p.PathSeparatedPrefix)+"/"))
 	default:
 		panic("unmodelled path specifier")
-	}
-	if m.CaseSensitive != nil && !m.CaseSensitive.Value {
-		panic("case-insensitive matching is outside this harness")
 	}
 	for _, h := range m.Headers {
 		ok = vp.And(ok, verifEnvoyHeader(h, r))
@@ -171,7 +176,19 @@ func verifIstioString(m *networking.StringMatch, v string) bool {
 func verifIstioBlock(b *networking.HTTPMatchRequest, r *verifReq) bool {
 	ok := true
 	if b.Uri != nil {
-		ok = vp.And(ok, verifIstioString(b.Uri, r.path))
+		if b.IgnoreUriCase {
+			// API reference: "the case will be ignored only in the case of exact and prefix URI matches"
+			switch p := b.Uri.MatchType.(type) {
+			case *networking.StringMatch_Exact:
+				ok = vp.And(ok, strings.ToLower(r.path) == strings.ToLower(p.Exact))
+			case *networking.StringMatch_Prefix:
+				ok = vp.And(ok, strings.HasPrefix(strings.ToLower(r.path), strings.ToLower(p.Prefix)))
+			default:
+				ok = vp.And(ok, verifIstioString(b.Uri, r.path))
+			}
+		} else {
+			ok = vp.And(ok, verifIstioString(b.Uri, r.path))
+		}
 	}
 	if b.Method != nil {
 		ok = vp.And(ok, verifIstioString(b.Method, r.method))
@@ -378,6 +395,27 @@ func verifCompare(vs *networking.VirtualService, label string) {
 // (every condition kind, source/port filtering), with the default rule behind it.
 func VerifC12MatchTranslation() {
 	verifCompare(verifVS(2, true), "generated-route-matches-what-the-match-block-says")
+}
+
+// ignoreUriCase: exact and prefix uri matches fold case, regex does not; literals and the request path may carry upper case.
+func VerifC12IgnoreUriCase() {
+	verifPathAlphabet = "aA/"
+	vs := &networking.VirtualService{Hosts: []string{"svc"}}
+	b := &networking.HTTPMatchRequest{IgnoreUriCase: vp.Choice("ignoreUriCase", 2) == 1}
+	lit := "/" + vp.StringIn("uri.lit", 2, "aA/")
+	switch vp.Choice("uri.kind", 3) {
+	case 0:
+		b.Uri = &networking.StringMatch{MatchType: &networking.StringMatch_Exact{Exact: lit}}
+	case 1:
+		b.Uri = &networking.StringMatch{MatchType: &networking.StringMatch_Prefix{Prefix: lit}}
+	default:
+		b.Uri = &networking.StringMatch{MatchType: &networking.StringMatch_Regex{Regex: lit}}
+	}
+	vs.Http = []*networking.HTTPRoute{
+		{Name: "rule0", Match: []*networking.HTTPMatchRequest{b}, DirectResponse: &networking.HTTPDirectResponse{Status: 200}},
+		{Name: "rule1", DirectResponse: &networking.HTTPDirectResponse{Status: 201}},
+	}
+	verifCompare(vs, "ignore-uri-case-folds-exact-and-prefix-only")
 }
 
 // Rule order, early stop at a catch-all, dropped (filtered) blocks: first matching rule wins for every request.
